@@ -139,6 +139,12 @@ os_start(os_ep *o, int is_server, unsigned version, uint16_t suite, int keykind,
 			if (cauth == 1) {
 				p = FX_cli_rsa_crt; crt = d2i_X509(NULL, &p, (long)FX_cli_rsa_crt_len);
 				p = FX_cli_rsa_key; pk = d2i_AutoPrivateKey(NULL, &p, (long)FX_cli_rsa_key_len);
+				if (chain_kind == 2) {
+					/* the RSA-4096 client: 512-byte signatures */
+					X509_free(crt); EVP_PKEY_free(pk);
+					p = FX_cli_rsa4k_crt; crt = d2i_X509(NULL, &p, (long)FX_cli_rsa4k_crt_len);
+					p = FX_cli_rsa4k_key; pk = d2i_AutoPrivateKey(NULL, &p, (long)FX_cli_rsa4k_key_len);
+				}
 			} else {
 				p = FX_cli_ec_crt; crt = d2i_X509(NULL, &p, (long)FX_cli_ec_crt_len);
 				p = FX_cli_ec_key; pk = d2i_AutoPrivateKey(NULL, &p, (long)FX_cli_ec_key_len);
@@ -305,7 +311,7 @@ main(int argc, char **argv)
 		if (b_is_client) cfg.client_auth = cauth; else cfg.client_auth = cauth ? 1 : 0;
 		/* chain shapes on both sides: single certificate, leaf + intermediate, 21 kB leaf + intermediate, leaf + root;
 		   the client certificate with or without its intermediate */
-		schain = (int)(idx % 4); cchain = (int)((idx >> 2) & 1);
+		schain = (int)(idx % 4); cchain = (int)((idx >> 2) % 3);
 		cfg.chain_kind = b_is_client ? cchain : schain;
 		vf_distinct("chain_shape", "client%d key%d s%d c%d cauth%d", b_is_client, keykind, schain, cchain, cauth);
 		if (!os_start(&o, b_is_client, pv->version, pv->s->id, keykind, cauth, b_is_client ? schain : cchain)) {
